@@ -450,6 +450,64 @@ impl<'a> Collector<'a> {
             }
         }
     }
+    fn try_chain_mut(&mut self, m: &syn::ExprMethodCall, cur: &syn::Expr, adapters: &[Adapter]) -> bool {
+        if m.method != "for_each" || m.args.len() != 1 {
+            return false;
+        }
+        let c = match &m.args[0] {
+            syn::Expr::Closure(c) if c.inputs.len() == 1 => c,
+            _ => return false,
+        };
+        let param = match &c.inputs[0] {
+            syn::Pat::Ident(pi) => pi.ident.to_string(),
+            _ => return false,
+        };
+        // the body must be `*param = E`
+        let asg = match &*c.body {
+            syn::Expr::Assign(a) => a,
+            _ => return false,
+        };
+        match &*asg.left {
+            syn::Expr::Unary(u) if matches!(u.op, syn::UnOp::Deref(_)) && nows(&self.src[range(u.expr.span()).0..range(u.expr.span()).1]) == param => {}
+            _ => return false,
+        }
+        let recv = match cur {
+            syn::Expr::MethodCall(mc) => &mc.receiver,
+            _ => return false,
+        };
+        let k = self.chains;
+        self.chains += 1;
+        let full = self.render(cur);
+        let mapped = self.map_source(full.clone());
+        let place = if mapped != full { mapped } else { self.render(recv) };
+        let mut pre = format!("let mut idx{k}__: usize = 0;\n");
+        let mut body = String::new();
+        let _ = writeln!(body, "/*CHAIN-START {k}*/");
+        let _ = writeln!(body, "if idx{k}__ >= {place}.len() {{ break; }}");
+        for a in adapters {
+            match a {
+                Adapter::Skip(e) => {
+                    let nt = self.render(e);
+                    let _ = writeln!(pre, "let mut skipped{k}__: usize = 0;");
+                    let _ = writeln!(body, "if skipped{k}__ < ({nt}) {{ skipped{k}__ = skipped{k}__ + 1; idx{k}__ = idx{k}__ + 1; continue; }}");
+                }
+                _ => {
+                    self.errors.push("iter_mut chain: only skip(n) is supported before for_each".into());
+                    return false;
+                }
+            }
+        }
+        let _ = writeln!(body, "/*CHAIN-ITEM {k}*/");
+        let rhs = self.render(&asg.right);
+        let _ = writeln!(body, "let new{k}__ = {{ let {param} = &{place}[idx{k}__]; {rhs} }};");
+        let _ = writeln!(body, "{place}[idx{k}__] = new{k}__;");
+        let _ = writeln!(body, "idx{k}__ = idx{k}__ + 1;");
+        let (s, e) = range(m.span());
+        let text = format!("{{\n{pre}loop\n/*CHAIN-HINT {k}*/\n{{\n{body}/*CHAIN-END {k}*/\n}}\n()\n}}");
+        self.chain_log.push(norm(&self.src[s..e]));
+        self.push(s, e, text, "R8m");
+        true
+    }
     /// returns true when the method call was a recognised chain and has been rewritten
     fn try_chain(&mut self, m: &syn::ExprMethodCall) -> bool {
         let term = m.method.to_string();
@@ -487,6 +545,10 @@ impl<'a> Collector<'a> {
             return false;
         }
         adapters.reverse();
+        // R8m: `<slice>.iter_mut()[.skip(n)].for_each(|x| *x = E)` becomes an index loop: x is read as &S[i], then S[i] is written
+        if nsrc.ends_with(".iter_mut()") {
+            return self.try_chain_mut(m, cur, &adapters);
+        }
         let k = self.chains;
         self.chains += 1;
         let src_t = self.render(cur);
